@@ -598,20 +598,47 @@ def r5_conversions(ctx, cls, gr, reads, decimal_only_keys):
     for key in gr.order:
         g = gr.env[key]
         if hasattr(g, "kind"):
-            for name in ("value",):
+            for name in ("value", "offset"):
                 for n in find_named(g, name):
                     if may_be_hex(n):
                         hexkeys.add(name)
     ctx.check("value" in hexkeys, "R5", "result name 'value' is shared by the decimal and the hexadecimal number token", gr.func.where(),
               "the grammar no longer names hexadecimal numbers 'value'", gr.func.qname, "hex token name")
     sites = 0
+    # conversion helpers of the class: `def h(self, literal, base=10): ... int(literal, base) ...` - a call of h converts its
+    # argument with the base that is passed (or the default)
+    wrappers = {}
+    for mname, g_ in c.methods.items():
+        prm = [p_ for p_ in g_.params() if p_ not in ("self", "cls")]
+        for n in ast.walk(g_.node):
+            if isinstance(n, ast.Call) and isinstance(n.func, ast.Name) and n.func.id == "int" and n.args and isinstance(n.args[0], ast.Name) \
+                    and n.args[0].id in prm:
+                b_ = C.arg_of(n, 1, "base")
+                dflt = dict(zip(prm[len(prm) - len(g_.node.args.defaults):], g_.node.args.defaults))
+                if b_ is None:
+                    wrappers[mname] = (prm.index(n.args[0].id), n.args[0].id, None, 10)
+                elif isinstance(b_, ast.Name) and b_.id in prm:
+                    wrappers[mname] = (prm.index(n.args[0].id), n.args[0].id, (prm.index(b_.id), b_.id), C.const_num(dflt[b_.id]) if b_.id in dflt else None)
+                elif C.const_num(b_) is not None:
+                    wrappers[mname] = (prm.index(n.args[0].id), n.args[0].id, None, C.const_num(b_))
     for mname, f in c.methods.items():
         if not (mname.startswith("process_") or mname in ("normalize_imd", "resolve_range_list", "parse_instruction")):
             continue
         for n in ast.walk(f.node):
-            if not (isinstance(n, ast.Call) and isinstance(n.func, ast.Name) and n.func.id == "int" and n.args):
+            wrapped = None
+            if isinstance(n, ast.Call) and isinstance(n.func, ast.Attribute) and n.func.attr in wrappers and mname != n.func.attr \
+                    and isinstance(n.func.value, ast.Name) and n.func.value.id in ("self", "cls", cls):
+                wrapped = wrappers[n.func.attr]
+            if wrapped is None and not (isinstance(n, ast.Call) and isinstance(n.func, ast.Name) and n.func.id == "int" and n.args):
                 continue
-            arg = n.args[0]
+            if wrapped is not None:
+                li, lname, bprm, bdef = wrapped
+                kw = {k.arg: k.value for k in n.keywords}
+                arg = n.args[li] if li < len(n.args) else kw.get(lname)
+                if arg is None:
+                    continue
+            else:
+                arg = n.args[0]
             last = None
             cur = arg
             while isinstance(cur, ast.Subscript):
@@ -630,8 +657,15 @@ def r5_conversions(ctx, cls, gr, reads, decimal_only_keys):
             if last is None:
                 continue
             sites += 1
-            base = C.arg_of(n, 1, "base")
-            b = C.const_num(base) if base is not None else 10
+            if wrapped is not None:
+                li, lname, bprm, bdef = wrapped
+                base = None
+                if bprm is not None:
+                    base = n.args[bprm[0]] if bprm[0] < len(n.args) else {k.arg: k.value for k in n.keywords}.get(bprm[1])
+                b = C.const_num(base) if base is not None else bdef
+            else:
+                base = C.arg_of(n, 1, "base")
+                b = C.const_num(base) if base is not None else 10
             if last in hexkeys:
                 if b == 0:
                     ctx.node_ok("R5", f, n, "int(<%s>, 0)" % last)
